@@ -65,6 +65,14 @@ def run(ctx):
                            {"job": job, "case": c})
             if not c["changed"] and c["outcome"] != "passed":
                 ctx.report("unmodified-rejected", f"{c['tamper']} left {c['file']} byte-identical but check() failed: {c['outcome']}", {"job": job, "case": c})
+    # datasets committed by several fillers working in threads (one sub-directory each, merged by one write_config) must pass too
+    tjobs = [{"format": "fb", "algs": ["sha256", "xxh64"], "width": 700000, "eps": 2, "n": 4, "threaded_fillers": 6},
+             {"format": "npz", "algs": ["md5"], "width": 300000, "eps": 3, "n": 3, "threaded_fillers": 3}]
+    for c, r in zip(tjobs, common.run_impl("hash_run.py", {"dataset": tjobs}, timeout=900)["dataset"]):
+        n_cases += 1
+        if r.get("check") != "passed":
+            ctx.report("committed-dataset-rejected", f"check() fails on an untouched dataset committed by {c['threaded_fillers']} fillers working in threads: "
+                                                     f"{r.get('check')}; {len(r.get('bad', []))} recorded checksums differ from the files' digests", {"hash_job": c})
     if broken and not ctx.violations:
         b = broken[0]
         ctx.report(f"broken:{b.what}", b.what, {"unchecked": b.what, "detail": b.detail[-3000:]}, found_input=False)
@@ -83,7 +91,7 @@ def run(ctx):
             "C16 (the recorded digests are digests of the complete file content) and C04 (committed trees are exact) are used as given"],
         "evaluations": n_cases, "distinct_nontrivial": len(n_nontrivial),
         "rule": "committed datasets (flat/nested/multi-writer, 1..13 algorithms, fb/npz[/tfrec]) x every reachable list file, shard file and the description x "
-                "{bit flip first/middle/last byte and at 7 interior offsets, LF->CRLF / LF->CR / extra JSON whitespace / BOM (changes a text reader would normalise), truncate to 0/half/len-1, extend, delete, swap with a sibling, roll back to an earlier version}; each case distinct by (dataset, file, tamper)",
+                "{bit flip first/middle/last byte and at 7 interior offsets, LF->CRLF / LF->CR / extra JSON whitespace / BOM (changes a text reader would normalise), a bit flip in place that keeps path, size and modification time in a process that has already hashed the file, truncate to 0/half/len-1, extend, delete, swap with a sibling, roll back to an earlier version}; each case distinct by (dataset, file, tamper)",
         "tamper_kinds": kinds, "datasets": len(jobs),
         "traces_validated_against_impl": n_cases,
     })
@@ -91,6 +99,10 @@ def run(ctx):
 
 
 def replay(ctx, rp):
+    if rp["replay"].get("hash_job"):
+        r = common.run_impl("hash_run.py", {"dataset": [rp["replay"]["hash_job"]]}, timeout=900)["dataset"][0]
+        print(json.dumps(r)[:1500])
+        return r.get("check") == "passed"
     job = rp["replay"].get("job")
     if not job:
         print("no concrete input in this replay file:", rp["replay"].get("unchecked"))
